@@ -138,3 +138,20 @@ type Locker interface {
 	Lock()
 	Unlock()
 }
+
+// FreeMutex is a real mutex in free-running (uncontrolled, e.g. -race) executions and a no-op under the
+// controlled scheduler, where exactly one logical thread runs at a time.  Harness-only state is guarded with it
+// so that the free-running race pass reports races of the code under test, not of the harness.
+type FreeMutex struct{ mu realMutex }
+
+func (m *FreeMutex) Lock() {
+	if S == nil {
+		m.mu.Lock()
+	}
+}
+
+func (m *FreeMutex) Unlock() {
+	if S == nil {
+		m.mu.Unlock()
+	}
+}
